@@ -1,49 +1,79 @@
 /-
   C12 — equality and hashing of scenario elements follow their contract.
 
-  Model: CRModel/EqHash.lean (`Val`, `Kind`, `rel`, the class tables `classes`, `eqv` = `x == y`, `hashEqv` = "the
-  tuples hashed by `__hash__` agree").  Lemmas: CRProofs/EqHash.lean.  The model is tied to the code by the
-  correspondence of harness/c12.py (every generated pair: `x == y` vs `eqv`, `hash(x) == hash(y)` vs `hashEqv`).
+  Model: CRModel/EqHash.lean (`Cls` — the finite list of class families, `Val`, `Kind`, `rel`, one row per class:
+  attribute, kind used by `__eq__`, kind used by `__hash__`; the constructor signatures `ctors`; `eqv` = `x == y`,
+  `hashEqv` = "the tuples hashed by `__hash__` agree") and CRModel/HashKey.lean (`PyVal` with Python container types,
+  the builders `HB` of the hashed tuple, `hok` = "building and hashing completes", the admitted attribute types `Ty`).
+  Lemmas: CRProofs/EqHash.lean, CRProofs/EqHashSpec.lean, CRProofs/HashKey.lean.
 
-  All theorems hold for ALL values (arbitrary nesting depth, arbitrary lists/sets, every rational number); the
-  generic ones hold for ANY pair of tables satisfying the stated side conditions, the `C12_…` specialisations for the
-  tables of commonroad-io, whose side conditions are decided row by row (`C12_tables_ok`).
+  "For every class" means: for every constructor of the inductive type `Cls` (38 families); a class name outside that
+  list cannot be written down in the model (the driver rejects it).  The theorems hold for ALL values (any nesting depth,
+  any list / set, every rational).  The generic ones hold for ANY tables meeting the stated side conditions, the `C12_…`
+  specialisations for the tables of commonroad-io, whose side conditions are decided row by row.
+  The model is tied to the code by the correspondence of harness/c12.py: every generated pair (`x == y` vs `eqv`,
+  `hash(x) == hash(y)` vs `hashEqv`), every generated instance and every ill-typed probe (`hash(x)` raises vs
+  `hashCompletes`, well-typedness), the rows vs the observed truth table, `ctors` vs `inspect.signature`.
 -/
-import CRProofs.EqHash
+import CRProofs.EqHashSpec
+import CRProofs.HashKey
 
 namespace CR.EqHash
 
-/-! ### the tables of commonroad-io satisfy the side conditions (decided) -/
+/-! ### the tables of commonroad-io: rows and constructor signatures (decided, class by class) -/
 
-/-- Every row of every class: the `__eq__` kind is not `skip` (eqAttrs = ctorAttrs), the `__hash__` kind is coarser
-    than the `__eq__` kind of the same attribute (hashAttrs ⊆ eqAttrs, frozenset-of-list vs list, None-as-empty-set),
-    a value-set hash only where `__eq__` is attribute-wise `==`. -/
-theorem C12_tables_ok : classes.all rowOk = true := classes_ok
+/-- Every row of every class family: each `__eq__` kind is a kind of the eq language and not `skip`, each `__hash__`
+    kind is coarser than the `__eq__` kind of the same attribute (not hashed | same | frozenset-of-list vs list |
+    None-as-empty-set), a value-set hash only where `__eq__` is attribute-wise `==`. -/
+theorem C12_tables_ok (c : Cls) : rowOk (row c) = true := rows_ok c
 
-/-- eqAttrs = ctorAttrs: `__eq__` reads every listed constructor attribute of every class. -/
-theorem C12_eq_reads_every_attribute :
-    ∀ row ∈ classes, ∀ ar ∈ row.attrs, ar.eqK ≠ .skip := by
-  intro row hrow ar har
-  have h := List.all_eq_true.mp classes_ok row hrow
-  simp only [rowOk, Bool.and_eq_true, List.all_eq_true] at h
-  have := (h.1.1.1.1 ar har).1.1.2
-  simpa using this
+/-- No attribute position of any class is invisible to `__eq__`: the kind of attribute `i` of class `c` is never `skip`
+    (listed attributes and, for the dynamic State family, every further value). -/
+theorem C12_attr_kind_not_skip (c : Cls) (i : Nat) : eqT.attr c i ≠ .skip := (kinds_ok c i).2.1
 
-/-- an attribute that is not read can never be detected: `skip` admits no difference -/
-theorem C12_skip_detects_nothing (T : Table) (v w : Val) : ¬ Differs T .skip v w := not_differs_skip T v w
+/-- ctorParams ⊆ eqAttrs, for rows AND signatures: every parameter of every public constructor in `ctors` (the list the
+    harness compares with `inspect.signature` of the working tree on every run) is stored in an attribute that `__eq__`
+    of its class family reads with a kind other than `skip`. -/
+theorem C12_ctor_params_compared :
+    ∀ cr ∈ ctors, ∀ pa ∈ cr.params, ∃ k, eqKindOfAttr cr.family pa.2 = some k ∧ k ≠ .skip := by
+  intro cr hcr pa hpa
+  have h := List.all_eq_true.mp ctors_ok cr hcr
+  have h2 := List.all_eq_true.mp h pa hpa
+  cases hk : eqKindOfAttr cr.family pa.2 with
+  | none => simp [hk] at h2
+  | some k => exact ⟨k, rfl, by simpa [hk] using h2⟩
 
-/-! ### x == x, x == deepcopy(x), symmetry -/
+/-- the same for the attributes of LaneletNetwork and Scenario that are filled through `add_*` instead of the constructor -/
+theorem C12_content_attrs_compared (c : Cls) :
+    ∀ a ∈ contentAttrs c, ∃ k, eqKindOfAttr c a = some k ∧ k ≠ .skip := by
+  intro a ha
+  have h2 := List.all_eq_true.mp (content_ok c) a ha
+  cases hk : eqKindOfAttr c a with
+  | none => simp [hk] at h2
+  | some k => exact ⟨k, rfl, by simpa [hk] using h2⟩
 
-/-- generic: reflexivity for every regular table -/
+/-- why `skip` must not occur: under `skip` any two values are "the same", so a difference can never be seen
+    (definitional: documents the model, carries no proof content) -/
+theorem C12_unread_attribute_invisible (T : Table) (v w : Val) : Same T .skip v w := .skip
+
+/-! ### what `==` decides: exactly `Same` -/
+
+/-- generic: for every eq table, every kind of the eq language and all values, `rel` is true exactly on the pairs that
+    are the `Same` (identical leaves, reals in one 10-decimal bucket where rounded, None/empty where documented, lists
+    element-wise, id sets as sets, objects of one class attribute-wise).  `Same` is inductive and does not mention `rel`. -/
+theorem C12_rel_iff_same (T : Table) (hT : T.RegE) (k : Kind) (hk : k.regE = true) (v w : Val) :
+    rel T v k w = true ↔ Same T k v w := rel_iff_same T hT k hk v w
+
+theorem C12_eqv_iff_same (x y : Val) : eqv x y = true ↔ Same eqT .eq x y := rel_iff_same eqT eqT_regE .eq rfl x y
+
+/-! ### x == x (hence x == deepcopy(x)), symmetry -/
+
 theorem C12_refl_generic (T : Table) (hT : T.Reg) (x : Val) : rel T x .eq x = true := rel_refl T hT x .eq rfl
 
+/-- `x == x`.  `copy.deepcopy(x)` has the same attribute values, i.e. is the same `Val`; `x == deepcopy(x)` is this
+    theorem plus that assumption about `deepcopy` (listed in ASSUMPTIONS and exercised on every generated instance). -/
 theorem C12_eq_refl (x : Val) : eqv x x = true := rel_refl eqT eqT_reg x .eq rfl
 
-/-- `copy.deepcopy` reproduces every attribute value: the copy is the same `Val`. -/
-theorem C12_eq_copy (x y : Val) (h : y = x) : eqv x y = true ∧ eqv y x = true := by
-  subst h; exact ⟨C12_eq_refl y, C12_eq_refl y⟩
-
-/-- generic: symmetry for every eq table -/
 theorem C12_symm_generic (T : Table) (hT : T.RegE) (x y : Val) : rel T x .eq y = rel T y .eq x :=
   rel_symm T hT x y .eq rfl
 
@@ -62,44 +92,25 @@ theorem C12_eq_hash (x y : Val) (h : eqv x y = true) : hashEqv x y = true :=
 theorem C12_eq_hash_fn {α : Type} (pyhash : Val → α) (hfac : ∀ x y, hashEqv x y = true → pyhash x = pyhash y)
     (x y : Val) (h : eqv x y = true) : pyhash x = pyhash y := hfac x y (C12_eq_hash x y h)
 
-/-- the hashed values of an object agree with themselves (the hash relation is reflexive, also for the value-set hash) -/
-theorem C12_hash_refl (x : Val) : hashEqv x x = true := rel_refl hashT hashT_reg x .eq rfl
-
-/-! ### id sets: insertion order (and multiplicity) is irrelevant -/
+/-! ### id sets: insertion order and multiplicity are irrelevant — any number of sets, at any depth -/
 
 /-- generic: two chains with the same members agree under every set kind -/
 theorem C12_set_same_members (T : Table) (hT : T.Reg) (k : Kind) (hk : k.reg = true) (xs ys : List Val)
     (h1 : ∀ x ∈ xs, x ∈ ys) (h2 : ∀ y ∈ ys, y ∈ xs) : rel T (ofList xs) (.setOf k) (ofList ys) = true :=
   rel_setOf_same_members T hT k hk xs ys h1 h2
 
-/-- Two objects of a class that agree in every attribute except that one set attribute (kind `setOf k`, or the
-    None-as-empty `setNE`) lists the same members in another order are equal, and their hashes agree. -/
-theorem C12_set_order_irrelevant (c : String) (pre post xs ys : List Val) (hperm : xs.Perm ys)
-    (hkind : (∃ k, eqT.attr c pre.length = .setOf k) ∨ eqT.attr c pre.length = .setNE) :
-    eqv (.obj c (ofList (pre ++ ofList xs :: post))) (.obj c (ofList (pre ++ ofList ys :: post))) = true
-      ∧ hashEqv (.obj c (ofList (pre ++ ofList xs :: post))) (.obj c (ofList (pre ++ ofList ys :: post))) = true := by
-  have h1 : ∀ x ∈ xs, x ∈ ys := fun x hx => hperm.mem_iff.mp hx
-  have h2 : ∀ y ∈ ys, y ∈ xs := fun y hy => hperm.mem_iff.mpr hy
-  have he : eqv (.obj c (ofList (pre ++ ofList xs :: post))) (.obj c (ofList (pre ++ ofList ys :: post))) = true := by
-    simp only [eqv, rel, beq_self_eq_true, Bool.true_and]
-    show rel eqT _ (.fields c 0) _ = true
-    rw [rel_fields_at eqT eqT_reg, Nat.zero_add]
-    rcases hkind with ⟨k, hk⟩ | hk
-    · rw [hk]
-      have hreg : k.reg = true := by
-        have := eqT_reg.attr c pre.length
-        rw [hk] at this
-        simpa [Kind.reg] using this
-      exact rel_setOf_same_members eqT eqT_reg k hreg xs ys h1 h2
-    · rw [hk]; exact rel_setNE_same_members eqT eqT_reg xs ys h1 h2
-  exact ⟨he, C12_eq_hash _ _ he⟩
+/-- generic congruence: if `w` is `v` with the members of set-read chains reordered or repeated — in any number of
+    attributes at once and at any nesting depth (sets of objects that contain sets …), everything else identical
+    (`SetPerm`) — then `v` and `w` agree under every eq table -/
+theorem C12_setperm_generic (T : Table) (hT : T.RegE) (k : Kind) (hk : k.regE = true) (v w : Val)
+    (h : SetPerm T k v w) : rel T v k w = true := rel_of_setPerm T hT h hk
+
+/-- … so such objects are equal and hash alike -/
+theorem C12_set_order_irrelevant (x y : Val) (h : SetPerm eqT .eq x y) : eqv x y = true ∧ hashEqv x y = true :=
+  have he := rel_of_setPerm eqT eqT_regE h rfl
+  ⟨he, C12_eq_hash x y he⟩
 
 /-! ### a difference in one constructor attribute is detected -/
-
-/-- generic: every difference (in the sense of `Differs`: leaves that differ, reals more than 10⁻¹⁰ apart, a list
-    position, a set member without partner, another class, an attribute of a nested object …) makes `rel` false -/
-theorem C12_differs_detected (T : Table) (hT : T.RegE) (k : Kind) (v w : Val) (h : Differs T k v w) :
-    rel T v k w = false := differs_sound T hT h
 
 /-- `round(x, 10)` / `np.around(x, 10)` cannot merge two reals that are more than 10⁻¹⁰ apart … -/
 theorem C12_round10_far (a b : Rat) (h : 1 / 10000000000 < a - b ∨ 1 / 10000000000 < b - a) :
@@ -109,74 +120,100 @@ theorem C12_round10_far (a b : Rat) (h : 1 / 10000000000 < a - b ∨ 1 / 1000000
 theorem C12_round10_near (a b : Rat) (h : round10 a = round10 b) :
     a - b ≤ 1 / 10000000000 ∧ b - a ≤ 1 / 10000000000 := round10_near a b h
 
-/-- Two objects of class `c` that agree in every attribute except attribute number `pre.length`, whose two values
-    differ under the kind by which `__eq__` of `c` compares that attribute, are unequal — in both directions. -/
-theorem C12_perturb_detected (c : String) (pre post : List Val) (v v' : Val)
-    (hd : Differs eqT (eqT.attr c pre.length) v v') :
+/-- Two objects of class `c` that agree in every attribute except attribute number `pre.length` are equal **iff** the two
+    values of that attribute are the `Same` under the kind by which `__eq__` of `c` reads it (which is never `skip`:
+    `C12_attr_kind_not_skip`; which constructor parameter sits there: `C12_ctor_params_compared`). -/
+theorem C12_single_attribute_iff (c : Cls) (pre post : List Val) (v v' : Val) :
+    eqv (.obj c (ofList (pre ++ v :: post))) (.obj c (ofList (pre ++ v' :: post))) = true
+      ↔ Same eqT (eqT.attr c pre.length) v v' := by
+  have h : eqv (.obj c (ofList (pre ++ v :: post))) (.obj c (ofList (pre ++ v' :: post)))
+      = rel eqT v (eqT.attr c pre.length) v' := by
+    simp only [eqv, rel, beq_self_eq_true, Bool.true_and]
+    show rel eqT _ (.fields c 0) _ = _
+    rw [rel_fields_at eqT eqT_reg, Nat.zero_add]
+  rw [h]
+  exact rel_iff_same eqT eqT_regE _ (eqT_regE.attr c _) v v'
+
+/-- … hence: values that are not the `Same` make the objects unequal, in both directions. -/
+theorem C12_perturb_detected (c : Cls) (pre post : List Val) (v v' : Val)
+    (hd : ¬ Same eqT (eqT.attr c pre.length) v v') :
     eqv (.obj c (ofList (pre ++ v :: post))) (.obj c (ofList (pre ++ v' :: post))) = false
       ∧ eqv (.obj c (ofList (pre ++ v' :: post))) (.obj c (ofList (pre ++ v :: post))) = false := by
   have h : eqv (.obj c (ofList (pre ++ v :: post))) (.obj c (ofList (pre ++ v' :: post))) = false := by
-    simp only [eqv, rel, beq_self_eq_true, Bool.true_and]
-    show rel eqT _ (.fields c 0) _ = false
-    rw [rel_fields_at eqT eqT_reg, Nat.zero_add]
-    exact differs_sound eqT eqT_regE hd
+    cases he : eqv (.obj c (ofList (pre ++ v :: post))) (.obj c (ofList (pre ++ v' :: post))) with
+    | false => rfl
+    | true => exact absurd ((C12_single_attribute_iff c pre post v v').mp he) hd
   exact ⟨h, by rw [C12_eq_symm]; exact h⟩
 
-/-- For the listed classes the hypothesis of `C12_perturb_detected` is never blocked by the table: the kind of every
-    listed attribute is the one the row names, and it is not `skip`. -/
-theorem C12_listed_attribute_kind (row : ClassRow) (hrow : findClass row.name = some row) (i : Nat) (ar : AttrRow)
-    (hi : row.attrs[i]? = some ar) : eqT.attr row.name i = ar.eqK ∧ ar.eqK ≠ .skip := by
-  refine ⟨?_, ?_⟩
-  · show (kinds row.name i).1 = ar.eqK
-    unfold kinds
-    rw [hrow]
-    dsimp only
-    rw [hi]
-  · exact C12_eq_reads_every_attribute row (List.mem_of_find?_eq_some hrow) ar (List.mem_of_getElem? hi)
+/-- The catalogue of differences `Differs` (leaves that differ, reals in different buckets — in particular more than
+    10⁻¹⁰ apart —, a list position, a set member without partner, another class, an attribute of a nested object):
+    each of them contradicts `Same` and makes `rel` false. -/
+theorem C12_differs_detected (T : Table) (hT : T.RegE) (k : Kind) (v w : Val) (h : Differs T k v w) :
+    rel T v k w = false ∧ ¬ Same T k v w := ⟨differs_sound T hT h, not_same_of_differs T hT h⟩
 
-/-! ### `hash()` does not raise — partial -/
+/-- `Differs` is exact: `rel` is false exactly on the `Differs` pairs … -/
+theorem C12_rel_false_iff_differs (T : Table) (hT : T.RegE) (k : Kind) (hk : k.regE = true) (v w : Val) :
+    rel T v k w = false ↔ Differs T k v w := rel_false_iff_differs T hT k hk v w
 
-/-- Full statement: Python's `hash(x)` returns for every object `x` built through the public constructors (default
-    arguments included).  `pyHash` stands for the interpreter's partial function (`none` = an exception is raised);
-    `built` for "is the getter image of an object built through the public constructors". -/
-def C12_hash_total_full (pyHash : Val → Option Int) (built : Val → Prop) : Prop :=
-  ∀ x, built x → pyHash x ≠ none
+/-- … i.e. `Differs` (the hand-written catalogue of differences) is precisely the negation of `Same` (the independent
+    reading of "identical attribute values"): nothing that differs is missed by the catalogue, nothing in it is the same. -/
+theorem C12_differs_iff_not_same (T : Table) (hT : T.RegE) (k : Kind) (hk : k.regE = true) (v w : Val) :
+    Differs T k v w ↔ ¬ Same T k v w := differs_iff_not_same T hT k hk v w
 
-/-- Proved part: *if* `hash` returns for two equal objects, the two results are equal (for every interpreter function
-    that is a function of the hashed tuple); and the model's hashed value exists for every `Val` (`hashEqv` is a total,
-    reflexive relation).  Missing: that CPython's `hash` does not raise on the tuples that the `__hash__` methods build
-    (no list / set / dict / None-iteration inside) — a statement about Python's object protocol that the value model
-    does not contain; it is decided on every generated instance of every class by the harness (`C12/<Class>/hash-raises`). -/
-theorem C12_hash_total_partial (pyHash : Val → Option Int)
-    (hfac : ∀ x y, hashEqv x y = true → pyHash x = pyHash y) (x y : Val) (h : eqv x y = true) :
-    pyHash x = pyHash y ∧ hashEqv x x = true :=
-  ⟨hfac x y (C12_eq_hash x y h), C12_hash_refl x⟩
+/-- reals more than 10⁻¹⁰ apart are never the same where an attribute is rounded -/
+theorem C12_real_far_not_same (T : Table) (a b : Rat)
+    (h : 1 / 10000000000 < a - b ∨ 1 / 10000000000 < b - a) : ¬ Same T .r10 (.num a) (.num b) := by
+  intro hs
+  cases hs with
+  | leaf _ _ => rcases h with h | h <;> simp at h <;> exact absurd h (by decide)
+  | bucket hb => exact round10_far a b h hb
 
-/-! ### non-vacuity: the hypotheses are satisfiable, the conclusions are not trivial -/
+/-- … and under an exactly compared attribute any two different numbers are not the same -/
+theorem C12_num_ne_not_same (T : Table) (a b : Rat) (h : a ≠ b) : ¬ Same T .eq (.num a) (.num b) := by
+  intro hs
+  cases hs with
+  | leaf _ _ => exact h rfl
 
-/-- the side conditions hold for the real tables -/
+/-! ### `hash()` does not raise -/
+
+/-- the builder of every attribute of every class family is compatible with the admitted type of that attribute
+    (decided row by row): on every outermost form the type admits the builder does not raise, recursively -/
+theorem C12_hash_tables_ok (c : Cls) : hrowOk (hrow c) = true := hrows_ok c
+
+/-- generic: for ANY builder table `H` and type table `A` that are compatible attribute by attribute, building and
+    hashing the component of a well-typed Python value completes -/
+theorem C12_hash_total_generic (H : Cls → Nat → HB) (A : Cls → Nat → Ty) (ar : Cls → Option Nat)
+    (hc : ∀ c i, ∃ n, compat n (H c i) (A c i) = true) (v : PyVal) (n : Nat) (b : HB) (τ : Ty)
+    (hb : compat n b τ = true) (ht : hasTy A ar v (.val τ) = true) : hok H v (.val b) = true :=
+  (hok_of_typed H A ar hc v).1 n b τ hb ht
+
+/-- For every class family and every well-typed instance (attribute values of the admitted types, the `None` defaults of
+    the public constructors included, nested objects well-typed in turn): `hash(x)` completes — no `tuple(None)`,
+    no `None.items()`, no unhashable list / set / dict / dict_items / ndarray inside the hashed tuple. -/
+theorem C12_hash_total (c : Cls) (x : PyVal) (h : wellTyped c x = true) : hashCompletes x = true := hash_total c x h
+
+/-! ### non-vacuity and witnesses -/
+
 example : Coarser eqT hashT := eq_hash_coarser
 example : eqT.RegE ∧ eqT.Reg ∧ hashT.Reg := ⟨eqT_regE, eqT_reg, hashT_reg⟩
 
 /-- a Circle(radius r, center (x, y)) -/
-def circle (r x y : Rat) : Val := .obj "Circle" (ofList [.num r, ofList [.num x, .num y]])
+def circle (r x y : Rat) : Val := .obj .Circle (ofList [.num r, ofList [.num x, .num y]])
 
-/-- the radius is compared exactly: any two different numbers are a `Differs` -/
-example : Differs eqT (eqT.attr "Circle" 0) (.num 1) (.num 2) :=
-  .leaf (by decide) (by decide) (Or.inl rfl) (by decide) (by decide)
-
+/-- the radius is compared exactly -/
 example : eqv (circle 1 1000 (1 / 2)) (circle 2 1000 (1 / 2)) = false :=
-  (C12_perturb_detected "Circle" [] [ofList [.num 1000, .num (1 / 2)]] (.num 1) (.num 2)
-    (.leaf (by decide) (by decide) (Or.inl rfl) (by decide) (by decide))).1
+  (C12_perturb_detected .Circle [] [ofList [.num 1000, .num (1 / 2)]] (.num 1) (.num 2)
+    (C12_num_ne_not_same eqT 1 2 (by decide))).1
 
-/-- the center is rounded: 2·10⁻¹⁰ apart is a `Differs` (first coordinate), hence detected -/
+/-- the center is rounded: 2·10⁻¹⁰ apart in the first coordinate is not the same, hence detected -/
 example : eqv (circle 1 1000 (1 / 2)) (circle 1 (1000 + 2 / 10000000000) (1 / 2)) = false :=
-  (C12_perturb_detected "Circle" [.num 1] [] (ofList [.num 1000, .num (1 / 2)])
+  (C12_perturb_detected .Circle [.num 1] [] (ofList [.num 1000, .num (1 / 2)])
     (ofList [.num (1000 + 2 / 10000000000), .num (1 / 2)])
-    (.head (K := .r10) rfl (.real (Or.inr (by norm_num))))).1
+    (not_same_of_differs eqT eqT_regE (.head (K := .r10) rfl (Differs.real_far eqT (Or.inr (by norm_num)))))).1
 
-/-- … while 2·10⁻¹¹ stays in the bucket: without its hypothesis the theorem above is false -/
-example : round10 1000 = round10 (1000 + 2 / 100000000000) := by
+/-- … while 2·10⁻¹¹ stays in the bucket, and is the `Same` -/
+example : Same eqT .r10 (.num 1000) (.num (1000 + 2 / 100000000000)) := by
+  refine .bucket ?_
   have h1 : round10 1000 = 10000000000000 := by
     unfold round10
     apply Int.le_antisymm
@@ -189,16 +226,37 @@ example : round10 1000 = round10 (1000 + 2 / 100000000000) := by
     · exact Rat.le_floor_iff.mpr (by norm_num)
   rw [h1, h2]
 
-/-- an id set in another insertion order: {0, 8} vs {8, 0} as `initial_shape_lanelet_ids` (attribute 5) of a StaticObstacle -/
-example (a b c d e g h : Val) :
-    eqv (.obj "StaticObstacle" (ofList ([a, b, c, d, e] ++ ofList [.num 0, .num 8] :: [g, h])))
-        (.obj "StaticObstacle" (ofList ([a, b, c, d, e] ++ ofList [.num 8, .num 0] :: [g, h]))) = true :=
-  (C12_set_order_irrelevant "StaticObstacle" [a, b, c, d, e] [g, h] [.num 0, .num 8] [.num 8, .num 0]
-    (List.Perm.swap _ _ _) (Or.inr rfl)).1
+/-- an IntersectionIncomingElement and an Intersection -/
+def incoming (i : Rat) (lanelets : List Val) : Val :=
+  .obj .IntersectionIncomingElement (ofList [.num i, ofList lanelets, .nil, .nil, .nil, .none])
+def intersection (i : Rat) (incs crossings : List Val) : Val :=
+  .obj .Intersection (ofList [.num i, ofList incs, ofList crossings])
+
+/-- `SetPerm` with several sets at two depths: the incoming elements listed in another order, the lanelet id set INSIDE
+    one of them in another order ({0, 8} vs {8, 0}), and the crossings in another order -/
+example : SetPerm eqT .eq
+    (intersection 5 [incoming 1 [.num 0, .num 8], incoming 2 [.num 3]] [.num 2, .num 4])
+    (intersection 5 [incoming 2 [.num 3], incoming 1 [.num 8, .num 0]] [.num 4, .num 2]) := by
+  have hinc : SetPerm eqT .eq (incoming 1 [.num 0, .num 8]) (incoming 1 [.num 8, .num 0]) :=
+    .obj (SetPerm.fields_cons eqT .refl
+      (SetPerm.fields_cons eqT (SetPerm.perm eqT (K := .setOf .eq) rfl (List.Perm.swap _ _ _)) .refl))
+  refine .obj (SetPerm.fields_cons eqT .refl (SetPerm.fields_cons eqT ?_ (SetPerm.fields_cons eqT ?_ .refl)))
+  · refine SetPerm.of_exists eqT (K := .setOf .eq) rfl ?_ ?_
+    · intro x hx
+      simp only [List.mem_cons, List.not_mem_nil, or_false] at hx
+      rcases hx with rfl | rfl
+      · exact ⟨_, by simp, hinc⟩
+      · exact ⟨_, by simp, .refl⟩
+    · intro y hy
+      simp only [List.mem_cons, List.not_mem_nil, or_false] at hy
+      rcases hy with rfl | rfl
+      · exact ⟨_, by simp, .refl⟩
+      · exact ⟨_, by simp, hinc⟩
+  · exact SetPerm.perm eqT (K := .setOf .eq) rfl (List.Perm.swap _ _ _)
 
 /-- a TrafficLightCycleElement(state, duration) and a cycle -/
-def cycElem (s : String) (d : Rat) : Val := .obj "TrafficLightCycleElement" (ofList [.str s, .num d])
-def cycle (es : List Val) : Val := .obj "TrafficLightCycle" (ofList [ofList es, .num 0, .num 1])
+def cycElem (s : String) (d : Rat) : Val := .obj .TrafficLightCycleElement (ofList [.str s, .num d])
+def cycle (es : List Val) : Val := .obj .TrafficLightCycle (ofList [ofList es, .num 0, .num 1])
 
 /-- unequal objects may share a hash (list `==` is hashed as a frozenset): the converse of `C12_eq_hash` is not claimed -/
 example : eqv (cycle [cycElem "red" 3, cycElem "green" 5]) (cycle [cycElem "green" 5, cycElem "red" 3]) = false
@@ -208,5 +266,22 @@ example : eqv (cycle [cycElem "red" 3, cycElem "green" 5]) (cycle [cycElem "gree
 /-- the defect repaired in `State.__eq__`, seen through the side condition: an eq table that skips an attribute which
     the hash table reads (rounded position) is NOT coarser — `Coarser` is exactly what failed before the repair. -/
 example : coarser (.r10) (.skip) = false := by decide
+
+/-- an Area(area_id, border, area_types) as the getters return it -/
+def areaPy (border types : PyVal) : PyVal := .obj .Area (.cons (.num 1) (.cons border (.cons types .nil)))
+
+/-- `Area(1)` — border and area_types left to their `None` defaults — is well-typed, so its hash completes -/
+example : wellTyped .Area (areaPy .none .none) = true := by decide
+example : hashCompletes (areaPy .none .none) = true := C12_hash_total .Area _ (by decide)
+
+/-- the defects found in the unchanged tree, expressed in the model: `tuple(None)` raises, a list inside the hashed
+    tuple is unhashable, `dict_items` is unhashable — and the builders the unchanged tree used are NOT compatible with
+    the admitted types (Area.border: `tuple(self._border)`; AreaBorder.adjacent / Scenario obstacle lists: the list
+    itself; PlanningProblemSet: `dict.items()` itself) -/
+example : hok hashB .none (.val (.iter .raw)) = false := by decide
+example : hok hashB (.ctr .list (.cons (.num 5) .nil)) (.val .raw) = false := by decide
+example : compat compatFuel (.iter .raw) (T.O (T.L (T.C [.AreaBorder]))) = false := by decide
+example : compat compatFuel .raw (T.O (T.L T.A)) = false := by decide
+example : compat compatFuel .raw (T.D (T.C [.PlanningProblem])) = false := by decide
 
 end CR.EqHash
